@@ -29,9 +29,15 @@ func c17Proc(ctx *core.Ctx, idx int) core.Result {
 		if r.Chance(1, 4) {
 			n = r.Range(4090, 9000)
 		}
+		if r.Chance(1, 12) {
+			n = r.Range(65000, 140000) // longer than any fixed line buffer
+		}
 		var sb strings.Builder
 		for j := 0; j < n; j++ {
-			sb.WriteByte("abcdefghij klmnop{}[]\";0123"[r.Intn(27)])
+			sb.WriteByte("abcdefghij klmnop{}[]\";0123\r\t"[r.Intn(29)])
+		}
+		if r.Chance(1, 5) {
+			sb.WriteByte('\r') // a line that ends in CR LF keeps its CR
 		}
 		lines = append(lines, fmt.Sprintf("%d:", i)+sb.String()+"\n")
 	}
@@ -137,5 +143,58 @@ func c17Proc(ctx *core.Ctx, idx int) core.Result {
 	res.Verdict = core.Held
 	res.Nontrivial = true
 	res.Sample = map[string]any{"family": "proc", "stdin_kind": kind, "lines": nlines, "reads": k}
+	return res
+}
+
+// c17Exit: what a statement wrote before it called exit() is on standard output, the exit status is the
+// argument, nothing after the exit runs; write and exit in one statement (block, function, loop body) and
+// in separate statements, in file mode and with -eval.
+func c17Exit(ctx *core.Ctx, idx int) core.Result {
+	r := core.CaseRng(ctx.Seed, "C17/exit", idx)
+	var res core.Result
+	bin := calcrun.CalcBinary()
+	if bin == "" {
+		return core.Result{Verdict: core.Inconclusive, Reason: "no calc binary (VERIF_CALC_BIN)"}
+	}
+	code := r.Range(0, 9)
+	n := r.Range(1, 40)
+	if r.Chance(1, 4) {
+		n = r.Range(4000, 9000) // around the usual buffer size
+	}
+	var sb strings.Builder
+	for j := 0; j < n; j++ {
+		sb.WriteByte("abcdefghij klmnop0123"[r.Intn(21)])
+	}
+	text := sb.String()
+	shape := idx % 4
+	var script string
+	switch shape {
+	case 0:
+		script = fmt.Sprintf("{\n write(\"%s\")\n exit(%d)\n}\nwrite(\"AFTER\")\n", text, code)
+	case 1:
+		script = fmt.Sprintf("zbye = (k) -> {\n write(\"%s\")\n exit(k)\n}\nzbye(%d)\nwrite(\"AFTER\")\n", text, code)
+	case 2:
+		script = fmt.Sprintf("for zi <- fromto(0, 5) {\n write(\"%s\")\n if zi == 0 exit(%d)\n}\nwrite(\"AFTER\")\n", text, code)
+	default:
+		script = fmt.Sprintf("write(\"%s\")\nexit(%d)\nwrite(\"AFTER\")\n", text, code)
+	}
+	res.Hash = core.HashString(script)
+	in := map[string]any{"script": trunc(script, 400), "exit_code": code}
+	spath, rm := scratchFile("c17-exit-*.calc", script)
+	defer rm()
+	p := calcrun.RunCalc(bin, []string{spath}, nil, "", 20*time.Second)
+	if p.TimedOut {
+		return core.Result{Verdict: core.Inconclusive, Reason: "watchdog"}
+	}
+	if p.Exit != code || p.Stdout != text {
+		res.Verdict = core.Violated
+		res.Viol = &core.Violation{Monitor: "builtin-contract", Detail: fmt.Sprintf("a script that writes %d characters and then calls exit(%d) ended with status %d and %d characters on standard output (%q ...)", len(text), code, p.Exit, len(p.Stdout), trunc(p.Stdout, 80)), Input: in}
+		return res
+	}
+	res.Add("exit_runs", 1)
+	res.Tag(fmt.Sprintf("exit-shape:%d", shape))
+	res.Verdict = core.Held
+	res.Nontrivial = true
+	res.Sample = in
 	return res
 }
